@@ -1,4 +1,5 @@
 import Relay.Props.HubInv
+import Relay.Extracted.Handlers
 
 /-!
 # C05 — relayed data arrives complete, ordered and intact, or the reader is dropped
@@ -93,5 +94,13 @@ example :
     ((run evs).members.map fun c => (c.name, frames c, c.queue.length)) =
         [(0, [[1, 2, 2], [3]], 0), (1, [], 1), (2, [], 2)]
       ∧ (run evs).gone.map (·.name) = [3] := by decide
+
+/-- **source obligation**: the bytes a connection hands to the hub are the slice `ReadMessage()` returned for that frame —
+    freshly allocated per frame by the websocket library and never written again — not a pooled, reused or re-sliced buffer.
+    The model's messages are immutable values; this is what makes that faithful (a queued frame cannot change under the
+    reader, and cannot turn into another topic's frame). -/
+theorem frames_are_fresh_slices :
+    Extracted.readPumpFrameSource = ["data:data", "data[1/3] := c.conn.ReadMessage()"] := by
+  decide
 
 end Hub
